@@ -1499,6 +1499,17 @@ class NP:
 
     def tile(self, a, n):
         a = asarray(a) if not _is_scalar(a) else SymArray([a], _dtype_of_scalar(a))
+        if isinstance(n, (tuple, list)):
+            reps = [int(r) for r in n]
+            if len(reps) == 1:
+                n = reps[0]
+            elif len(reps) == 2 and a.ndim == 1:
+                row = list(a.d) * reps[1]
+                return SymArray([SymArray(list(row), a.dtype_tag) for _ in range(reps[0])], a.dtype_tag, shape=(reps[0], len(row)))
+            else:
+                raise Unsupported(f"np.tile with reps {n!r} on a {a.ndim}-d array")
+        if a.ndim != 1:
+            raise Unsupported("np.tile on a 2-d array")
         return SymArray(list(a.d) * int(n), a.dtype_tag)
 
     def take(self, a, idx):
